@@ -29,3 +29,12 @@ META["C06"] = {
     "note": "Trusts lib.RefProject and protobuf-go; presence of empty intermediate messages on mask paths is not compared; for invalid masks only validation/no-panic/non-mutation are asserted (what such a read returns is unspecified).",
     "technique": "rapid property-based testing (differential against an independent projection) + mask corruption + native fuzzing in the thorough tier",
 }
+META["C16"] = {
+    "text": ("Property-based differential testing of the comparers: rapid builds pairs by mutating a common ancestor (so equal and nearly-equal pairs are frequent), "
+             "including NaN/Inf, unset-vs-default, maps, lists, nil/typed-nil/other-type and permuted unknown fields. cmp.Equal() must agree with proto.Equal modulo "
+             "change_time in Change messages; tolerance comparers (alone and under ValueAnd/ValueOr/And/Or) must be reflexive, symmetric and agree with an independent "
+             "structural walker that applies the arithmetic tolerance predicate per field, with tolerances drawn just below/at/above the actual differences; a "
+             "resource with an equivalence and a backpressured subscriber must deliver exactly the writes not equivalent to what the subscriber holds."),
+    "note": "Trusts proto.Equal and the harness walker; pairs where only one side has change_time are not asserted; DurationValueWithinP only reflexive/symmetric; an updates-only subscriber's first write equivalent to the current value is unspecified; one known finding (Collection compares with the previous stored value instead of the held one) is tolerated by exact signature.",
+    "technique": "rapid property-based testing: differential vs proto.Equal + independent arithmetic oracle + model-based delivery check",
+}
